@@ -213,8 +213,11 @@ func main() {
 		files = append(files, c.F)
 	}
 	vs := quickVariants
-	if thorough {
+	if thorough || prop == "C16" {
 		vs = allVariants
+	}
+	if prop == "C16" {
+		files = append(files, corpus.Extra()...)
 	}
 	bs, err := buildAll(vs, files, *genRoot, *bindir, *repo, *harnessDir)
 	hx.Must(err)
@@ -376,5 +379,105 @@ func streamMarshal(r *hx.Rng, cfs []*cfile, bs *builtSet) {
 }
 
 func streamGenerator(r *hx.Rng, cfs []*cfile, bs *builtSet, bindir, genRoot string) {
-	reportUnusable(bs)
+	// (1) every corpus schema x every option variant compiled (bs was built with all eight variants);
+	//     the naming / import edge cases of corpus.Extra() ride along
+	for _, s := range bs.status {
+		sink.OracleN++
+		if s.GenError != "" || s.Compile != "" {
+			what, got, cls := "the plug-in failed on a valid schema", s.GenError, "gen-error:"+s.File
+			if s.Compile != "" {
+				what, got, cls = "generated code does not compile", s.Compile, "gen-compile:"+s.File
+			}
+			if strings.Contains(got, "written twice") || strings.Contains(got, "generated twice") || strings.Contains(got, "duplicate") {
+				cls = "gen-collision:" + s.File
+			}
+			fail(what, fmt.Sprintf("schema=%s variant=%s", s.File, s.Variant), "generated, compiling code", got, cls)
+		}
+	}
+	// (2) determinism, output names, parsability: the plug-in is run twice per (schema, variant) in
+	//     different working directories, time zones and at different times
+	fm := filepath.Join(bindir, "protoc-gen-fastmarshal")
+	all := corpus.Matrix()
+	all = append(all, corpus.Extra()...)
+	d1 := filepath.Join(genRoot, "cwd1")
+	d2 := filepath.Join(genRoot, "cwd2", "deeper")
+	hx.Must(os.MkdirAll(d1, 0o755))
+	hx.Must(os.MkdirAll(d2, 0o755))
+	for _, f := range all {
+		for _, v := range allVariants {
+			if f.GoogleOnly && v.Runtime() != "google" {
+				continue
+			}
+			req := request(f, v.Param())
+			o1, e1, err1 := runPlugin(fm, req, d1, []string{"TZ=UTC"})
+			o2, e2, err2 := runPlugin(fm, req, d2, []string{"TZ=Asia/Tokyo", "LANG=C"})
+			cs := fmt.Sprintf("schema=%s variant=%s", f.Base, v.Name())
+			sink.OracleN++
+			if err1 != nil || err2 != nil {
+				fail("the plug-in crashed or wrote an unparsable response", cs, "a response", fmt.Sprint(err1, err2), "gen-crash")
+				continue
+			}
+			same := e1 == e2 && len(o1) == len(o2)
+			for i := range o1 {
+				if same && (o1[i].Name != o2[i].Name || o1[i].Content != o2[i].Content) {
+					same = false
+				}
+			}
+			if !same {
+				fail("two runs on the identical request produced different output", cs, "byte-identical", "differs", "gen-nondeterministic")
+			}
+			var names []string
+			seen := map[string]bool{}
+			for _, o := range o1 {
+				names = append(names, o.Name)
+				if seen[o.Name] {
+					fail("an output file name is used twice", cs, "distinct names", o.Name, "gen-collision:"+f.Base)
+				}
+				seen[o.Name] = true
+				if !v.PerMessage || true {
+					if _, perr := goParse(o.Name, o.Content); perr != "" {
+						fail("an emitted file is not valid Go", cs+" file="+o.Name, "parsable", perr, "gen-unparsable:"+f.Base)
+					}
+				}
+			}
+			impl := strings.Join(names, " ")
+			if e1 != "" {
+				impl = "error"
+				if !strings.Contains(e1, "unparsable Go source") {
+					// anything else than a rendering problem
+				}
+			}
+			pm := "0"
+			if v.PerMessage {
+				pm = "1"
+			}
+			if e1 == "" {
+				sink.Add("names", fmt.Sprintf("G NM@%s %s %s/%s %s", v.Name(), pm, f.Base, f.Base, f.Forest()), impl, true)
+			}
+			sink.Count("generated:" + v.Name())
+		}
+	}
+	// (3) option handling: documented spellings accepted, anything else rejected
+	f0 := all[0]
+	for _, pc := range []struct {
+		param string
+		ok    bool
+	}{{"paths=source_relative,apiversion=V2", true}, {"paths=source_relative,apiversion=v1", true}, {"paths=source_relative,apiversion=v3", false},
+		{"paths=source_relative,filepermessage=1", true}, {"paths=source_relative,filepermessage=T", true}, {"paths=source_relative,filepermessage=yes", false},
+		{"paths=source_relative,enableunsafedecode=false", true}, {"paths=source_relative,specialname=Size,specialname=Foo", true},
+		{"paths=source_relative,nosuchoption=1", false}, {"paths=source_relative", true}} {
+		_, e, err := runPlugin(fm, request(f0, pc.param), d1, nil)
+		sink.OracleN++
+		got := err == nil && e == ""
+		if got != pc.ok {
+			fail("generator option handling differs from the documentation", pc.param, fmt.Sprint(pc.ok), fmt.Sprint(got, " ", e, " ", err), "gen-options")
+		}
+		res := "rejected"
+		if got {
+			res = "accepted"
+		}
+		sink.Add("options", "G OP "+pc.param, res, true)
+	}
+	os.RemoveAll(filepath.Join(genRoot, "cwd1"))
+	os.RemoveAll(filepath.Join(genRoot, "cwd2"))
 }
